@@ -21,6 +21,7 @@ import (
 
 	"circlsim/core"
 
+	"github.com/cloudflare/circl/ecc/bls12381"
 	"github.com/cloudflare/circl/sign"
 	"github.com/cloudflare/circl/sign/bls"
 	"github.com/cloudflare/circl/sign/ed25519"
@@ -391,7 +392,7 @@ func gen(r *core.PRNG, tier string) any {
 		n = r.Range(1, 2)
 		if r.Chance(1, 2) {
 			p.Signers = r.Range(2, 5)
-			p.AggF = []string{"", "drop", "dup", "swapmsg", "samemsg-ok", "agg-extended", "share-extended"}[r.Intn(7)]
+			p.AggF = []string{"", "drop", "dup", "swapmsg", "samemsg-ok", "agg-extended", "share-extended", "rogue-key"}[r.Intn(8)]
 		}
 	}
 	for i := 0; i < n; i++ {
@@ -901,6 +902,53 @@ func execAgg[K bls.KeyGroup](p *Plan, run *core.Run, comp string) {
 		vs = append(vs, vs[0])
 	case "swapmsg": // shares attributed to the wrong messages
 		vm[0], vm[1] = vm[1], vm[0]
+	case "rogue-key":
+		// the classic attack on aggregation without proofs of possession: the attacker
+		// registers the key X - pk1 (X its own key) and presents its own signature on m as the
+		// aggregate of (pk1, m) and (X - pk1, m). The basic scheme of the draft refuses equal
+		// messages for exactly this reason: pk1's owner never signed m.
+		run.Fault("adversary:rogue-key-aggregate")
+		run.T("agg", p.AggF)
+		atk, err := bls.KeyGen[K](core.NewPRNG(p.KeySeed+99).Bytes(32), nil, nil)
+		if err != nil {
+			panic("HARNESS: bls.KeyGen")
+		}
+		xb, _ := atk.PublicKey().MarshalBinary()
+		vb, _ := pubs[0].MarshalBinary()
+		var rb []byte
+		switch any(k).(type) {
+		case bls.G1:
+			var X, V bls12381.G1
+			if X.SetBytes(xb) != nil || V.SetBytes(vb) != nil {
+				panic("HARNESS: decode G1 keys")
+			}
+			V.Neg()
+			X.Add(&X, &V)
+			rb = X.BytesCompressed()
+		default:
+			var X, V bls12381.G2
+			if X.SetBytes(xb) != nil || V.SetBytes(vb) != nil {
+				panic("HARNESS: decode G2 keys")
+			}
+			V.Neg()
+			X.Add(&X, &V)
+			rb = X.BytesCompressed()
+		}
+		rogue := new(bls.PublicKey[K])
+		if rogue.UnmarshalBinary(rb) != nil {
+			return // the rogue key is refused at registration: nothing to verify
+		}
+		target := []byte("a message the victim never signed")
+		forged := bls.Sign(atk, target)
+		ok := false
+		if pan, v, st := core.Try(func() {
+			ok = bls.VerifyAggregate([]*bls.PublicKey[K]{pubs[0], rogue}, [][]byte{target, target}, forged)
+		}); pan {
+			run.Violate(comp+".VerifyAggregate", core.PanicClass(v), "%s at %s", v, st)
+		} else if ok {
+			run.Violate(comp+".VerifyAggregate", "accepts-rogue-key-aggregate", "an aggregate over two equal messages verifies for a signer who never signed: the second key is X - pk1, the 'aggregate' is the attacker's own signature")
+		}
+		return
 	case "agg-extended", "share-extended":
 		// bytes appended in transit to the aggregate (or to one share before aggregation):
 		// not the advertised size, refused like Verify refuses an extended signature
